@@ -120,6 +120,29 @@ theorem np_inv_col {n m : ℕ} (k : ℕ) (s : Vec n) (V : Mat n m) :
   split <;> rfl
 theorem vsub_centroid {n d : ℕ} (S T : Mat n d) : vsub (centroid T) (centroid S) = fitTranslationVec S T := rfl
 
+/-! ### the plain transforms' constructors (translated base-class bodies) -/
+
+theorem setTransCol_one {d : ℕ} (v : Vec d) : setTransCol (one : HMat d) v = translationH v := by
+  funext i j
+  simp only [setTransCol, translationH, mkH, one]
+  by_cases hi : i.val < d <;> by_cases hj : j.val < d <;> simp [hi, hj, Fin.ext_iff] <;> omega
+
+/-- `Homogeneous.__init__` / `Affine.__init__` / `Similarity.__init__` hand the matrix to the object's OWN setter -/
+theorem genSimilarityCtor_eq {n d : ℕ} (setH : HObj n d → HMat d → Bool → Bool → HObj n d) (a : HObj n d) (h : HMat d)
+    (c k : Bool) : genSimilarityCtor setH a h c k = setH a h c k := rfl
+theorem genAffineCtor_eq {n d : ℕ} (setH : HObj n d → HMat d → Bool → Bool → HObj n d) (a : HObj n d) (h : HMat d)
+    (c k : Bool) : genAffineCtor setH a h c k = setH a h c k := rfl
+/-- `Translation.__init__`: the identity with the translation written into its last column -/
+theorem genTranslationCtor_eq {n d : ℕ} (setH : HObj n d → HMat d → Bool → Bool → HObj n d) (a : HObj n d) (v : Vec d)
+    (k : Bool) : genTranslationCtor setH a v k = setH a (translationH v) false k := by
+  simp only [genTranslationCtor, genSimilarityCtor_eq, vlen]
+  rw [setTransCol_one]
+/-- `Rotation.__init__`: the identity through the plain setter, then the object's OWN `set_rotation_matrix` on the
+matrix it was given (not its transpose, not another one) -/
+theorem genRotationCtor_eq {n d : ℕ} (setH : HObj n d → HMat d → Bool → Bool → HObj n d)
+    (setRot : HObj n d → Mat d d → Bool → HObj n d) (a : HObj n d) (R : Mat d d) (k : Bool) :
+    genRotationCtor setH setRot a R k = setRot (setH a one false true) R k := rfl
+
 /-! ### shape/pointcloud.py -/
 
 theorem genPointCloudCentre_eq {n d : ℕ} (P : Mat n d) : genPointCloudCentre P = centroid P := rfl
@@ -161,7 +184,8 @@ theorem genSetTarget_eq {Obj Src Tgt : Type} (ops : ObjOps Obj Src Tgt) (sync : 
 
 theorem genTranslationInit_eq {n d : ℕ} (ext : Ext) (self : HObj n d) (S T : Mat n d) :
     genTranslationInit ext self S T = ⟨S, T, fitTranslation S T, self.rotation, self.allowMirror⟩ := by
-  simp only [genTranslationInit, genAlignmentInit_eq, genPointCloudCentre_eq, np_sub_vec, vsub_centroid]
+  simp only [genTranslationInit, genTranslationCtor_eq, plainSetH, genAlignmentInit_eq, genPointCloudCentre_eq, np_sub_vec,
+    vsub_centroid]
   rfl
 
 theorem genTranslationSync_eq {n d : ℕ} (ext : Ext) (a : HObj n d) (v : Vec d) (h : a.h = translationH v) :
@@ -172,7 +196,8 @@ theorem genTranslationSync_eq {n d : ℕ} (ext : Ext) (a : HObj n d) (v : Vec d)
 /-- one `set_target` on a translation alignment = the constructor on the new target -/
 theorem translation_retarget {n d : ℕ} (ext : Ext) (self : HObj n d) (S T₀ T : Mat n d) :
     retarget HObj.ops (genTranslationSync ext) (genTranslationInit ext self S T₀) T = genTranslationInit ext self S T := by
-  rw [retarget, genTranslationSync_eq ext _ (fitTranslationVec S T₀) rfl]
+  rw [retarget, genTranslationSync_eq ext _ (fitTranslationVec S T₀) (by rw [genTranslationInit_eq]; rfl), genTranslationInit_eq,
+    genTranslationInit_eq]
   rfl
 
 /-! ### scale.py -/
@@ -203,7 +228,7 @@ theorem genAffineSetH_eq {n d : ℕ} (a : HObj n d) (v : HMat d) (c k : Bool) :
 /-- the constructor ends with the REQUESTED target (`construct false`), whatever the setter did in between -/
 theorem genAffineInit_eq {n d : ℕ} (self : HObj n d) (S T : Mat n d) :
     genAffineInit self S T = (affineFit S T).map fun h => ⟨S, T, h, self.rotation, self.allowMirror⟩ := by
-  simp only [genAffineInit, genAffineBuildH_eq]
+  simp only [genAffineInit, genAffineBuildH_eq, genAffineCtor_eq]
   cases affineFit S T <;> rfl
 
 theorem genAffineSync_eq {n d : ℕ} (a : HObj n d) :
@@ -243,8 +268,8 @@ theorem genRotationSetRotationMatrix_eq {n d : ℕ} (ext : Ext) (a : HObj n d) (
 
 theorem genRotationInit_eq {n d : ℕ} (ext : Ext) (self : HObj n d) (S T : Mat n d) (m : Bool) :
     genRotationInit ext self S T m = ⟨S, T, rotationH (rotFitExt ext m S T), self.rotation, m⟩ := by
-  simp only [genRotationInit, genRotationSetRotationMatrix_eq, genOptimalRotationMatrix_eq, genAlignmentInit_eq,
-    HObj.setH, HObj.ops, HObj.setAllowMirror, setLinPart_one]
+  simp only [genRotationInit, genRotationCtor_eq, plainSetH, genRotationSetRotationMatrix_eq, genOptimalRotationMatrix_eq,
+    genAlignmentInit_eq, HObj.setH, HObj.ops, HObj.setAllowMirror, setLinPart_one]
 
 theorem genRotationSync_eq {n d : ℕ} (ext : Ext) (a : HObj n d) (R : Mat d d) (h : a.h = rotationH R) :
     genRotationSync ext a = { a with h := rotationH (rotFitExt ext a.allowMirror a.source a.target) } := by
@@ -266,7 +291,7 @@ theorem genProcrustesAlignment_eq {n d : ℕ} (ext : Ext) (S T : Mat n d) (rotat
 
 theorem genSimilarityInit_eq {n d : ℕ} (ext : Ext) (self : HObj n d) (S T : Mat n d) (r m : Bool) :
     genSimilarityInit ext self S T r m = ⟨S, T, simFitExt ext r m S T, r, m⟩ := by
-  simp only [genSimilarityInit, genProcrustesAlignment_eq]
+  simp only [genSimilarityInit, genProcrustesAlignment_eq, genSimilarityCtor_eq, plainSetH]
   rfl
 
 theorem genSimilaritySync_eq {n d : ℕ} (ext : Ext) (a : HObj n d) :
